@@ -18,7 +18,7 @@ TRUSTED = ["Model/Ctx.v models the colour context as the only process state the 
            "harness/hist.py: history interpreter, fresh-process worker, context recorder (monkey-patched from outside /repo)"]
 ASSUMPTIONS = ["histories are executed exactly as quantified (<= 4 prior operations from a fresh interpreter) and then extended by up to 3 target "
                "encodes in the same process; every encode in the log is compared with the fresh-process baseline of its document",
-               "the pool is the fixed 13-document pool of harness/hist.py (figure varies with the seed)"]
+               "the pool is the fixed 15-document pool of harness/hist.py (figure varies with the seed)"]
 
 WORKER = os.path.join(rt.VERIF, "harness", "hist.py")
 
@@ -197,13 +197,14 @@ def run(ctx):
             f["replay_cmd"] = "./check C14 --replay <this file>"
     coverage = {
         "evaluations": stats["histories"], "distinct_nontrivial": stats["encodes_checked"],
-        "rule": "histories = sequences of construct / encode / encode-twice over the 13-document pool run in a FRESH interpreter each, "
+        "rule": "histories = sequences of construct / encode / encode-twice over the 15-document pool run in a FRESH interpreter each, "
                 "exhaustive for length 1 (and 2 in the thorough tier), sampled for lengths 2-4, plus failing-encode-then-X for every X; "
                 "each followed by 3 target encodes; alternate runs share equal-valued component objects; distinct = encodes compared with the fresh baseline",
         "ops_per_history": {str(k): v for k, v in sorted(lens.items())},
         "pool": ["plain3", "plain5", "coloured", "coloured+header+footnote", "multi-section coloured", "figure", "grouped failing (ValueError)",
                  "paginated page_by", "shares header/page", "multi-section plain", "footnote on all pages, empty body border_last",
-                 "shares footnote of #3, closed by a source table", "shares source of #11, empty page border_last"],
+                 "shares footnote of #3, closed by a source table", "shares source of #11, empty page border_last",
+                 "cell-by-cell border matrices", "shares the body of #13, closed by a footnote table"],
         "baseline": [list(b) for b in base], "samples": samples, "outcomes": dict(stats),
         "traces_validated_against_impl": stats["traces_ok"],
     }
